@@ -171,6 +171,52 @@ RAW_DOCS = {
 }
 
 
+# documents in which YAML anchors make several places of the configuration ONE Python object after loading: they are
+# valid and complete, so they have to be accepted (compiling one experiment must not change what another one sees)
+SHARED_DOCS = {
+    "execution entry with its own suites shared by two experiments": """
+benchmark_suites:
+  S1: {gauge_adapter: Time, command: c, benchmarks: [b1, b2]}
+  S2: {gauge_adapter: Time, command: d, benchmarks: [b3]}
+executors: {E1: {executable: x}, E2: {executable: y}}
+.entries:
+  - &A {E1: {suites: [S1]}}
+  - &B {E2: {suites: [S2], invocations: 3}}
+experiments:
+  Small: {executions: [*A]}
+  Large: {executions: [*A, *B]}
+  Again: {executions: [*B, *A]}
+""",
+    "executions list shared by two experiments": """
+benchmark_suites: {S1: {gauge_adapter: Time, command: c, benchmarks: [b1]}}
+executors: {E1: {executable: x}}
+.ex: &EX [{E1: {suites: [S1], warmup: 1}}]
+experiments:
+  One: {executions: *EX}
+  Two: {executions: *EX, invocations: 2}
+""",
+    "benchmark details shared by two suites and two benchmarks": """
+.d: &D {extra_args: "-x", input_sizes: [1, 2], tags: [t]}
+benchmark_suites:
+  S1: {gauge_adapter: Time, command: c, benchmarks: [{b1: *D}, {b2: *D}]}
+  S2: {gauge_adapter: Time, command: c, benchmarks: [{b1: *D}]}
+executors: {E1: {executable: x}}
+experiments:
+  One: {executions: [E1], suites: [S1, S2]}
+  Two: {executions: [E1], suites: [S2]}
+""",
+    "executor map, run details and suites list shared": """
+.r: &R {invocations: 2, warmup: 1, env: {A: b}}
+.s: &S [S1]
+benchmark_suites: {S1: {gauge_adapter: Time, command: c, benchmarks: [b1], <<: *R}}
+executors: {E1: &E {executable: x, <<: *R}, E2: *E}
+experiments:
+  One: {executions: [E1, E2], suites: *S}
+  Two: {executions: [{E2: {suites: *S}}, {E1: {suites: *S}}]}
+""",
+}
+
+
 def run(chk):
     tier = chk.tier
     rng = chk.rng
@@ -210,6 +256,23 @@ def run(chk):
     ndocs = 250 if tier == "quick" else 4000
     docs = [("raw:" + k, v) for k, v in RAW_DOCS.items()]
     docs.append(("valid", VALID_DOC))
+    for k, v in SHARED_DOCS.items():
+        for sel in ([], ["all"], None):
+            docs.append(("valid-shared:" + k, v) if sel is None else ("valid-shared:" + k + ":" + " ".join(sel), v))
+    # systematic single-point mutations of the valid document: every position dropped / replaced by every wrong value
+    for path in all_paths(base):
+        for w in [("drop",)] + [("wrong", x) for x in (WRONG if tier == "thorough" else [None, [], {}, "str", 5])]:
+            doc = copy.deepcopy(base)
+            parent = get_parent(doc, path)
+            try:
+                if w[0] == "drop":
+                    del parent[path[-1]]
+                else:
+                    parent[path[-1]] = copy.deepcopy(w[1])
+            except (TypeError, KeyError, IndexError):
+                continue
+            docs.append(("point:%s=%r@%s" % (w[0], w[1] if len(w) > 1 else None, "/".join(map(str, path))),
+                         yaml.safe_dump(doc, default_flow_style=False)))
     for i in range(ndocs):
         doc, label = mutate_doc(rng, base)
         if rng.random() < 0.3:
@@ -224,7 +287,9 @@ def run(chk):
             with open(path, "w") as f:
                 f.write(text)
             argv = ["-E", "-D", path]
-            if i % 7 == 3:
+            if label.startswith("valid-shared:") and label.endswith(":all"):
+                argv.append("all")
+            elif i % 7 == 3 and not label.startswith("valid"):
                 argv.append(rng.choice(["X1", "X2", "all", "nope"]))
             rc, out = run_main(argv)
             case = dict(mutation=label, document=text if len(text) < 2500 else text[:2500], argv=argv)
@@ -234,8 +299,8 @@ def run(chk):
                 chk.violation("C19 configuration problems exit with status 3", case, "0 or 3", rc)
             elif rc == 3 and not out.strip():
                 chk.violation("C19 rejected with a diagnostic message", case, "a message", "no output")
-            if label == "valid" and rc != 0:
-                chk.violation("C19 documented format accepted", case, 0, rc)
+            if (label == "valid" or label.startswith("valid-shared:")) and rc != 0:
+                chk.violation("C19 a valid and complete configuration is accepted (also when anchors share parts of it)", case, 0, (rc, out[-400:]))
             chk.case(("d", label, text), nontrivial=True, sample=dict(mutation=label, exit=rc) if i in (0, 30) else None)
             chk.count("doc:exit=%s" % (rc if not isinstance(rc, str) else "traceback"))
     finally:
